@@ -550,3 +550,57 @@ package genql
 
 //@ func SelectExpr$2
 //@   at-call mapstore:data[name] assert slot-dereferenced[C12,C14]: !typeis(stored, *any)
+
+// ---------------------------------------------------------------------------
+// C03: aggregates. Each fold is specified over its own argument (the members of the group it is handed).
+
+//@ func ToFloat64
+//@   ensures value[C03]: err == nil && typeis(any, float64) ==> result == any.(float64)
+//@   ensures fn[C03]: err == nil ==> result == spec.toF(any)
+//@   trusted : strconv.ParseFloat(fmt.Sprintf("%v", x)) returns x for a float64 x (library round trip); its value on other kinds is the uninterpreted toF
+
+//@ func SumFunc
+//@   requires json0: len(args) > 0 ==> spec.JSONValue(args[0])
+//@   loop 0 invariant frame[C03]: elems(*slice) == old(elems(*slice)) && *slice == old(*slice)
+//@   loop 0 invariant sum[C03]: sum == spec.FoldSum(elems(*slice), off(*slice), rangeindex + 1)
+//@   loop 0 invariant nulls[C03]: allNull == spec.AllNil(elems(*slice), off(*slice), rangeindex + 1)
+//@   ensures sum[C03]: len(args) == 1 && typeis(args[0], []any) && err == nil ==>
+//@     | result == ite(spec.AllNil(elems(args[0].([]any)), off(args[0].([]any)), len(args[0].([]any))), nil, any(spec.FoldSum(elems(args[0].([]any)), off(args[0].([]any)), len(args[0].([]any)))))
+
+//@ func MinFunc
+//@   requires json0: len(args) > 0 ==> spec.JSONValue(args[0])
+//@   loop 0 invariant frame[C03]: elems(*slice) == old(elems(*slice)) && *slice == old(*slice)
+//@   loop 0 invariant min[C03]: min == spec.FoldMin(elems(*slice), off(*slice), rangeindex + 1)
+//@   loop 0 invariant nulls[C03]: allNull == spec.AllNil(elems(*slice), off(*slice), rangeindex + 1)
+//@   ensures min[C03]: len(args) == 1 && typeis(args[0], []any) && err == nil ==>
+//@     | result == ite(spec.AllNil(elems(args[0].([]any)), off(args[0].([]any)), len(args[0].([]any))), nil, any(spec.FoldMin(elems(args[0].([]any)), off(args[0].([]any)), len(args[0].([]any)))))
+
+//@ func MaxFunc
+//@   requires json0: len(args) > 0 ==> spec.JSONValue(args[0])
+//@   loop 0 invariant frame[C03]: elems(*slice) == old(elems(*slice)) && *slice == old(*slice)
+//@   loop 0 invariant max[C03]: min == spec.FoldMax(elems(*slice), off(*slice), rangeindex + 1)
+//@   loop 0 invariant nulls[C03]: allNull == spec.AllNil(elems(*slice), off(*slice), rangeindex + 1)
+//@   ensures max[C03]: len(args) == 1 && typeis(args[0], []any) && err == nil ==>
+//@     | result == ite(spec.AllNil(elems(args[0].([]any)), off(args[0].([]any)), len(args[0].([]any))), nil, any(spec.FoldMax(elems(args[0].([]any)), off(args[0].([]any)), len(args[0].([]any)))))
+
+//@ func AvgFunc
+//@   requires json0: len(args) > 0 ==> spec.JSONValue(args[0])
+//@   loop 0 invariant frame[C03]: elems(*slice) == old(elems(*slice)) && *slice == old(*slice)
+//@   loop 0 invariant sum[C03]: sum == spec.FoldSum(elems(*slice), off(*slice), rangeindex + 1)
+//@   loop 0 invariant nulls[C03]: allNull == spec.AllNil(elems(*slice), off(*slice), rangeindex + 1)
+//@   ensures avg[C03]: len(args) == 1 && typeis(args[0], []any) && err == nil && !spec.AllNil(elems(args[0].([]any)), off(args[0].([]any)), len(args[0].([]any))) ==>
+//@     | result == any(spec.FoldSum(elems(args[0].([]any)), off(args[0].([]any)), len(args[0].([]any))) / float64(len(args[0].([]any))))
+
+//@ func CountFunc
+//@   requires json0: len(args) > 0 ==> spec.JSONValue(args[0])
+//@   ensures members[C03]: len(args) > 0 && typeis(args[0], []any) ==> err == nil && result == any(len(args[0].([]any)))
+//@   ensures star-group[C03]: len(args) == 0 && has(current, "*") && typeis(current["*"], []any) ==> err == nil && result == any(len(current["*"].([]any)))
+
+//@ func AggrFunExpr
+//@   at-call AggrFuncArgReader assert filtered-rows[C03]: len(query.groupDefinition) == 0 ==> typeis(current["*"], []any) ==> rows == current["*"].([]any)
+
+//@ func ExecSelect
+//@   at-call SelectExpr assert aggregates-see-this-stage[C03]: called(IsSelectAllAggregate) && callresult(IsSelectAllAggregate, 0) ==> has(arg1, "*") && arg1["*"] == any(current)
+
+//@ func ExecGroupBy
+//@   order[C03]
